@@ -6,6 +6,7 @@ sd="$1"; shift
 wt=$(mktemp -d /tmp/vf-sv-XXXXXX); rmdir "$wt"
 git -C /repo worktree add -q "$wt" HEAD || exit 2
 cd "$(dirname "$0")/.." || exit 2
+export VERIF_EVIDENCE_DIR="$PWD/out/evidence-scratch"; mkdir -p "$VERIF_EVIDENCE_DIR"   # these runs must not overwrite evidence/
 mkdir -p out
 PYTHONPATH="$wt" /venv/bin/python "$sd/demo.py" > out/sv-demo0.log 2>&1; d0=$?
 if ! git -C "$wt" apply "$sd/patch.diff"; then echo "PATCH DOES NOT APPLY"; git -C /repo worktree remove --force "$wt"; exit 2; fi
